@@ -19,6 +19,7 @@ from .solve import Query, run_cvc5, run_z3
 VERIF = os.path.abspath(os.path.join(os.path.dirname(__file__), "..", ".."))
 BUILD = os.path.join(VERIF, ".build")
 REPO = os.environ.get("VERIF_REPO", "/repo")
+SUB = "symfp" if REPO == "/repo" else "alt-" + hashlib.md5((REPO + "\n").encode()).hexdigest()[:10]
 INCLUDES = [
     "SimTKcommon/include", "SimTKcommon/BigMatrix/include", "SimTKcommon/Geometry/include",
     "SimTKcommon/Mechanics/include", "SimTKcommon/Polynomial/include", "SimTKcommon/Random/include",
@@ -51,10 +52,10 @@ def build_instrumented():
 
 def build_harness(src, extra_flags=()):
     """compile harness/<src> against the instrumented libraries; returns path of the binary"""
-    os.makedirs(os.path.join(BUILD, "harness"), exist_ok=True)
+    os.makedirs(os.path.join(BUILD, "harness-" + SUB), exist_ok=True)
     srcp = os.path.join(VERIF, "harness", src)
-    out = os.path.join(BUILD, "harness", os.path.splitext(src)[0])
-    libs = [os.path.join(BUILD, "symfp", l) for l in ("libSimTKsimbody.so", "libSimTKmath.so", "libSimTKcommon.so")]
+    out = os.path.join(BUILD, "harness-" + SUB, os.path.splitext(src)[0])
+    libs = [os.path.join(BUILD, SUB, l) for l in ("libSimTKsimbody.so", "libSimTKmath.so", "libSimTKcommon.so")]
     deps = [srcp, os.path.join(VERIF, "harness", "common.h"), os.path.join(VERIF, "engine/symfp/symfp.h"),
             os.path.join(BUILD, "libsymfp.so"), os.path.join(BUILD, "libsymfp_rt.so"), os.path.join(BUILD, "libsymfp_lapack.so")]
     # harness must be rebuilt when any repo header changes: depend on the newest library as a proxy
@@ -66,8 +67,8 @@ def build_harness(src, extra_flags=()):
            "-I" + os.path.join(VERIF, "engine/symfp"), "-I" + os.path.join(VERIF, "harness")]
     cmd += ["-I" + os.path.join(REPO, i) for i in INCLUDES]
     cmd += list(extra_flags)
-    cmd += [srcp, "-o", out + ".tmp%d" % os.getpid(), "-L" + BUILD, "-Wl,--no-as-needed", "-lsymfp_lapack", "-L" + os.path.join(BUILD, "symfp"), "-lSimTKsimbody", "-lSimTKmath", "-lSimTKcommon",
-            "-L" + BUILD, "-lsymfp_rt", "-lpthread", "-Wl,-rpath," + os.path.join(BUILD, "symfp"), "-Wl,-rpath," + BUILD]
+    cmd += [srcp, "-o", out + ".tmp%d" % os.getpid(), "-L" + BUILD, "-Wl,--no-as-needed", "-lsymfp_lapack", "-L" + os.path.join(BUILD, SUB), "-lSimTKsimbody", "-lSimTKmath", "-lSimTKcommon",
+            "-L" + BUILD, "-lsymfp_rt", "-lpthread", "-Wl,-rpath," + os.path.join(BUILD, SUB), "-Wl,-rpath," + BUILD]
     env = dict(os.environ, SYMFP_BUILD=BUILD)
     r = subprocess.run(cmd, capture_output=True, text=True, env=env)
     if r.returncode != 0:
